@@ -45,6 +45,18 @@ CHECKS = {
         "Valid files from the C03 generator (all compressors, protocols 2-5, numpy arrays) are truncated at every length (files <= 4 KiB; boundary-biased beyond) and extended with 1 byte, junk, a second copy and a different valid stream; each damaged load must raise or return an object isomorphic to the original within budgets of executed lines in joblib's persistence modules, own CPU time and 2 GiB address space (exceeding one is the non-termination witness). Warm Memory entries are damaged the same ways and the cached call must return the plain value without raising.",
         "Budgets are orders of magnitude above the undamaged load (baseline recorded); damage is truncation/extension only (no bit flips); loads go through BytesIO for the file clause and through real files for the Memory clause.",
         "3/C14", "budgets"),
+    "C05": (
+        "fault_enumeration",
+        "crash-point enumeration with an LD_PRELOAD libc interposer: SIGKILL before every mutating file-system call under the cache directory (plus page-boundary torn writes), recovery checked in fresh processes",
+        "Ten Memory workloads (cold, warm, source change, validation-callback invalidation, call_and_shelve, compressed, reduce_size, clear, multi-page results, multi-page func_code.py) are first run under the interposer in log mode to list their mutating calls; each is then re-run from the same pre-state once per crash point and SIGKILLed there by the interposer (exit status -9 is verified); every crashed directory is recovered twice in fresh processes (plain, and with expires_after(days=1)): every output.pkl visible must load to a complete legitimate result and every cached call must return the plain value without raising. Exhaustive over the enumerated crash points of these workloads; the thorough tier cross-checks the interposer's log against strace.",
+        "Crash model: process death on a local file system, directory operations atomic, torn writes at page granularity, single writer. Power loss / lost fsync is outside the property.",
+        "3/C05", "fsshim"),
+    "C11": (
+        "exploration",
+        "turn-based scheduling of real processes at file-system-call granularity (LD_PRELOAD interposer + coordinator): seeded PCT-like schedules with <= 3 pre-emptions and random walks over call / reduce_size / clear / observer participants",
+        "2-4 participant processes (some with two threads) run short scripts of cached calls, call_and_shelve, reduce_size, Memory.clear / func.clear and a read-only observer on one cache directory; every watched libc call (reads, stats and directory listings included) blocks until the coordinator grants the turn, so the interleaving is chosen by the check and recorded (its hash is the unit of distinct schedules). Every cached call must return a valid value and must not raise; whatever is visible under a final name, at any scheduled instant (observer) and at the end, must be one complete result - results are writer-specific so a mixture cannot be valid.",
+        "File-system calls are serialised: races inside one call's kernel execution are not explored. Participants silent for 0.6 s are skipped, never forced. Exceptions inside clear()/reduce_size() themselves are observations only.",
+        "3/C11", "fsshim"),
     "C07": (
         "exploration",
         "differential runtime oracle: real filter_args vs inspect.Signature.bind over an exhaustive enumeration of signatures x call shapes",
@@ -131,6 +143,8 @@ def main():
 NOT_APPLICABLE = {}
 
 ENGINES = [
+    dict(name="fsshim", path="native/fsshim.c", serves_properties=["C05", "C11", "C10"],
+         kind_free_text="LD_PRELOAD libc interposer (log / crash-at-k / turn-based sched / pipekill modes) with vlib/fssched.py coordinator"),
     dict(name="scripted-backend", path="vlib/scripted_backend.py", serves_properties=["C01", "C04", "C09", "C16"],
          kind_free_text="ParallelBackendBase subclass whose completion schedule (order, callback thread, in-submit completion, late completions) is owned by the check; trace monitor; instrumented input iterator"),
     dict(name="yield-injector", path="vlib/yieldinj.py", serves_properties=["C01", "C04", "C09"],
